@@ -59,6 +59,37 @@ CHECKS["C11"] = dict(
          "observed (time limit), not proved; the irrational swap trigger is not predicted, only its effect is validated.",
     technique="TLC action properties on spec/Mesh + TLC trace validation of hooked real refine_mesh passes")
 
+CHECKS["C08"] = dict(
+    category="model_checking", design_ref="DESIGN.md §C08, §3.2",
+    text="spec/Tissue is the solver as an implementation-shaped state machine (contact stores list positions, division and removal renumber, ids "
+         "from a monotone counter); TLC checks LidIsIndex / CouplingValid at the use phases, IdsUnique, IdsFresh, Gone and DivisionReplaces over "
+         "every history of divisions and removals in the bound. Binding: real solver::run on scripted histories (division / removal at every list "
+         "position, mixed orders, several per iteration, adjacent cells with live couplings, 1-16 threads, 1-3 face types, contact models 1 and 2) "
+         "observed at every phase boundary (hook H4); TLC (TissueTrace) replays the population events with Tissue's DivideResult / RemoveResult and "
+         "checks ids, list positions, couplings, face owners and face-type indices on every state.",
+    note="Scripted histories (the driver sets a cell's division volume / its type's minimum volume); validity is required at the use points only; "
+         "known finding F13 (epithelial type with one face type) is listed in known_findings.json.",
+    technique="TLA+ spec (Tissue) model-checked by TLC + TLC trace validation (TissueTrace) of hooked real solver runs")
+CHECKS["C04"] = dict(
+    category="model_checking", design_ref="DESIGN.md §C04",
+    text="TLC checks on spec/Tissue: Gone, RemovedAtEnd, TvolClamped, OnlyReadyDivide over every history in the bound. Real solver runs over "
+         "parameter sets (growth >0/=0/<0 with active clamp, finite/infinite pressure cap, initial pressure, tiny bulk modulus, infinite and reached "
+         "division volume, non-epithelial cells above their division volume, removals) are validated by TLC (TissueTrace): eligibility, removal at "
+         "the end of the iteration, never reappearing, and the numeric laws logged as verdicts (target-volume law bitwise, pressure law against an "
+         "independently recomputed enclosed volume, initial target volume, 3-sigma bound over 10^4 seeded draws).",
+    note="ln(), the volume sum and the 3-sigma comparison are C++-side oracles whose verdicts TLC requires (no transcendental functions in TLA+); "
+         "static cells are excluded from the numeric laws.",
+    technique="TLA+ spec (Tissue) model-checked by TLC + TLC trace validation of hooked real solver runs with harness-evaluated numeric verdicts")
+CHECKS["C19"] = dict(
+    category="model_checking", design_ref="DESIGN.md §C19",
+    text="TLC checks NoGaps, KBound, TimeLaw and StatsRows on spec/Tissue for the code's file rule (and refutes the pre-fix rule as a control). "
+         "Real solver::run over a (dt, S, T) grid including S = dt and non-commensurable ratios, with division, removal and extinction, file and "
+         "in-memory statistics: every phase boundary, every file written, the final directory listing, every cell-data file read back with the real "
+         "reader and every statistics row (compared as strings with the getters formatted at recording time) are validated by TLC (TissueTrace).",
+    note="Times are integer nanoseconds converted to doubles; K is compared with floor(T/S)+1 computed exactly; computation-time and energy columns "
+         "are not checked.",
+    technique="TLA+ spec (Tissue) model-checked by TLC + TLC trace validation of hooked real solver runs and of the files they leave")
+
 PENDING = {}   # property id -> reason (filled below for everything not in CHECKS)
 NOT_APPLICABLE = {
  "C10": "memory safety / undefined behaviour has no representation in a TLA+ state (no addresses, lifetimes or indeterminate values); "
